@@ -22,7 +22,8 @@ TRUSTED = ["pytools.UniqueNameGenerator (third party) is modelled: counter regex
 ALPHA = ["a", "A", "_", "0", "<", ">", "^", " ", "é"]
 TAGS = ["<state>", "<p>", "<cond>", "<func>", "<ret_time>", "<ret_state>", "<ret_time_id>", "<dt>", "<t>", ""]
 PY_KEYWORDS = set(keyword.kwlist)
-FORTRAN_RESERVED = {"dagrt_t", "dagrt_dt", "dagrt_state", "dagrt_next_phase", "dagrt_step"}
+FORTRAN_RESERVED = {"dagrt_t", "dagrt_dt", "dagrt_state", "dagrt_next_phase", "dagrt_step",
+                    "dagrt_ierr", "dagrt_stderr", "dagrt_nan"}       # fixed identifiers of the generated module
 
 
 def short_names():
@@ -40,7 +41,9 @@ def rand_name(rng):
         return rng.choice(TAGS) + base
     if r < 0.45:
         return rng.choice(["local_x_0", "localx", "lploc_y", "lploc_Y", "x_007", "x_7", "y_1_2", "y_1", "dagrt_z", "dagrt_T",
-                           "x_0", "x", "X", "global_x", "self.global_x", "drtf_a", "dagrt_refcnt_x", "x__3", "x_", "_x", "1x"])
+                           "x_0", "x", "X", "global_x", "self.global_x", "drtf_a", "dagrt_refcnt_x", "x__3", "x_", "_x", "1x",
+                           # the generator's own fixed identifiers in ANOTHER letter case (Fortran does not tell them apart)
+                           "Dagrt_Ierr", "DAGRT_STATE", "Dagrt_stderr", "Dagrt_Nan", "DAGRT_STEP"])
     if r < 0.5:
         return rng.choice(TAGS) + base + rng.choice([">", "->", "<", ">>", "<p>", "<state>"]) + base
     if r < 0.55:
@@ -187,7 +190,7 @@ def oracle(case, out):
             if len(bare) > 63:
                 return {"what": f"{k} {n!r} -> identifier of {len(bare)} > 63 characters", "sig": "too-long", "fkind": "f-too-long"}
             if bare.lower() in FORTRAN_RESERVED and n not in ("<t>", "<dt>"):
-                return {"what": f"{n!r} mapped to the reserved identifier {ident!r}", "sig": "reserved"}
+                return {"what": f"{k} {n!r} mapped to the reserved identifier {ident!r}", "sig": "reserved", "okind": k}
     return None
 
 
@@ -238,3 +241,9 @@ def fortran_user_name_with_dagrt_prefix(case, fail, **kw):
     """an IR variable that itself starts with 'dagrt_' is passed through without the lploc_ prefix"""
     return case.get("lang") == "fortran" and fail.get("sig") in ("collision", "reserved") and \
         any(k == "var" and n.startswith("dagrt_") for k, n in case["ops"])
+
+
+@matcher
+def fortran_function_name_reserved(case, fail, **kw):
+    """a FUNCTION identifier spelled like one of the generator's fixed identifiers (function ids get no prefix)"""
+    return case.get("lang") == "fortran" and fail.get("sig") == "reserved" and fail.get("okind") == "func"
